@@ -10,7 +10,7 @@
    [browser_attrs] / [nv_part] / [cookie_header] = an RFC 6265-style user agent. *)
 From Coq Require Import List NArith ZArith Bool.
 Import ListNotations.
-From TV Require Import C25.Model C25.Run C25.Proofs2 C25.Proofs3 C25.Proofs4.
+From TV Require Import Lib.C21_Utf8 C25.Model C25.Run C25.Proofs2 C25.Proofs3 C25.Proofs4 C25.ModelP4 C25.ProofsP4.
 
 (* 1. A call that returns normally emits a header whose name=value part is read
       back by Tornado's cookie parser as exactly that name and value: all names,
@@ -201,3 +201,57 @@ Theorem C25_rejected_reset_keeps_earlier_setting :
   run_ops [OpSet w_a; OpSet w_b; OpSet w_bad] = ([Ok; Ok; ValueErr], [w_b; w_a]).
 Proof. exact failed_reset_example. Qed.
 Print Assumptions C25_rejected_reset_keeps_earlier_setting.
+
+(* ---- escape.native_str on the name and value arguments (ModelP4.v) ---- *)
+
+(* 9. bytes name and value: for every accepted call the cookie parser reads back
+      exactly the strict-UTF-8 decoding of the bytes (which re-encodes to them). *)
+Theorem C25_bytes_arguments_read_back_decoded :
+  forall c bn bv o,
+    prepare (mkRaw (OpSet c) (ABytes bn) (ABytes bv)) = Some o ->
+    accepted (lower o) = true ->
+    exists n v, utf8_decode bn = Some n /\ utf8_decode bv = Some v
+      /\ utf8_encode n = Some bn /\ utf8_encode v = Some bv
+      /\ parse_cookie (nv_part (output_string (lower o))) = [(n, v)].
+Proof. exact bytes_roundtrip. Qed.
+Print Assumptions C25_bytes_arguments_read_back_decoded.
+Example C25_bytes_arguments_ex :
+  exists o, prepare (mkRaw (OpSet w_a) (ABytes [115;105;100]%N) (ABytes [99;97;102;195;169;59]%N)) = Some o
+            /\ accepted (lower o) = true.
+Proof. eexists. split; [reflexivity|vm_compute; reflexivity]. Qed.
+
+(* ... for any mix of str / bytes arguments and any of the three entry points: the
+   decoded name, the call's value and exactly the requested attributes *)
+Theorem C25_decoded_arguments_read_back :
+  forall r o n,
+    prepare r = Some o -> accepted (lower o) = true -> native_str (r_name r) = Some n ->
+    parse_cookie (nv_part (output_string (lower o))) = [(n, c_value (lower o))]
+    /\ browser_name (output_string (lower o)) = n
+    /\ browser_attrs (output_string (lower o)) = requested (lower o).
+Proof. exact raw_roundtrip. Qed.
+Print Assumptions C25_decoded_arguments_read_back.
+
+(* 10. a call whose bytes are not valid UTF-8 raises UnicodeDecodeError and leaves
+       the jar (and every other call's outcome) unchanged, anywhere in any sequence *)
+Theorem C25_invalid_utf8_is_undecodable :
+  forall o bn av, utf8_decode bn = None ->
+    prepare (mkRaw o (ABytes bn) av) = None /\ prepare (mkRaw o av (ABytes bn)) = None.
+Proof. exact invalid_utf8_undecodable. Qed.
+Print Assumptions C25_invalid_utf8_is_undecodable.
+
+Theorem C25_undecodable_call_raises_and_changes_nothing :
+  forall l1 r l2, prepare r = None ->
+    raw_result r = decode_error
+    /\ raw_jar (l1 ++ r :: l2) = raw_jar (l1 ++ l2)
+    /\ map raw_result (l1 ++ r :: l2) = map raw_result l1 ++ decode_error :: map raw_result l2.
+Proof. exact undecodable_changes_nothing. Qed.
+Print Assumptions C25_undecodable_call_raises_and_changes_nothing.
+Example C25_undecodable_ex : prepare (mkRaw (OpSet w_a) (AStr [97]%N) (ABytes [255]%N)) = None.
+Proof. reflexivity. Qed.
+
+(* 11. the model with bytes/str arguments satisfies the checker applied to the
+       implementation, for all call sequences and endings *)
+Theorem C25_raw_model_satisfies_checker :
+  forall rops e, check_case_raw (rops, e) (run_case_raw (rops, e)) = true.
+Proof. exact checker_accepts_raw_model. Qed.
+Print Assumptions C25_raw_model_satisfies_checker.
